@@ -130,6 +130,12 @@ func corpus(e *ev.Env) {
 		hist(e, "overlap-late-success-other-key-"+n, b(fixedW(1, 2)).skipSuccessful().keys(2), steps(
 			rq("200").async(3100), rq("500").after(2000), rq("500").after(1000).key(1), rq("500").key(1), rq("500"),
 			rq("500").after(2000), rq("500").key(1), rq("500"), rq("500").key(1)))
+		// a failing request that outlives two window rotations: nothing of it is left to take back,
+		// the two hits of the window in between stay counted (last request: 429)
+		hist(e, "overlap-failure-two-windows-later-sliding-"+n, b(slidingW(3, 3)).skipFailed(), steps(
+			rq("500").async(6600), rq("200").after(3000), rq("200"), rq("200").after(3000), rq("200").after(1000), rq("200")))
+		hist(e, "overlap-failure-two-windows-later-fixed-"+n, b(fixedW(2, 2)).skipFailed(), steps(
+			rq("500").async(4600), rq("200").after(2000), rq("200"), rq("200").after(2000), rq("200").after(1000), rq("200")))
 		hist(e, "overlap-refund-inside-window-"+n, b(fixedW(2, 3)).skipFailed(), steps(
 			rq("500").async(1100), rq("200"), rq("200"), rq("200").after(2000), rq("200"), rq("200")))
 	}
